@@ -2,11 +2,13 @@ package c14
 
 import (
 	"fmt"
+	"sort"
 	"strings"
 
 	gast "github.com/vektah/gqlparser/v2/ast"
 
 	"github.com/wundergraph/graphql-go-tools/execution/engine"
+	"github.com/wundergraph/graphql-go-tools/v2/pkg/engine/resolve"
 
 	"verifharness/internal/fed"
 	"verifharness/internal/fw"
@@ -17,7 +19,7 @@ import (
 // that distinguish defects) is kept, the rest is counted.
 func (e *caseEnv) violate(res *fw.Result, kind, msg string, match map[string]string, detail any) {
 	key := kind
-	for _, f := range []string{"rule", "direction", "swallowed", "deferred", "request_after_initial_frame", "entity_request", "entity_types_below_abstract_field", "same_object_field_reported_at_another_position", "panic"} {
+	for _, f := range []string{"rule", "direction", "swallowed", "deferred", "request_after_initial_frame", "entity_request", "entity_types_below_abstract_field", "same_object_field_reported_at_another_position", "panic", "tracing"} {
 		key += "|" + match[f]
 	}
 	if e.violSeen == nil {
@@ -249,6 +251,11 @@ func (p c14) judge(res *fw.Result, env *caseEnv, oc *opCase, d *decision, mode s
 		}
 	}
 	match := map[string]string{"mode": mode, "operation_kind": opKind, "hidden_input_denied": fmt.Sprint(hiddenDenied), "protected_set": env.kind, "deferred": fmt.Sprint(oc.deferred)}
+	if env.tracing {
+		// request tracing on the resolve context (trace output not included in the response)
+		opts = append(opts, engine.WithRequestTraceOptions(resolve.TraceOptions{Enable: true, EnablePredictableDebugTimings: true, Debug: true}))
+		match["tracing"] = "on"
+	}
 	dbg("EXEC mode=%s decision=%s denied=%v op=%s", mode, d.name, deniedList, strings.Join(strings.Fields(oc.text), " "))
 	got, pan := safeExecute(env.gw, oc.text, oc.vars, opts...)
 	if debugOn && got != nil {
@@ -439,6 +446,30 @@ func (p c14) judge(res *fw.Result, env *caseEnv, oc *opCase, d *decision, mode s
 
 	// ---- (5) request rule
 	suppressed := p.checkRequests(res, env, oc, d, mode, got, gv.firstFlush, rec, prof, match, full)
+
+	// tracing must not change what the client receives: same data, same errors as the execution of
+	// the same (decision, mode) without tracing
+	var es []string
+	for _, e := range gv.errors {
+		es = append(es, ref.Canon(e))
+	}
+	sort.Strings(es)
+	sig := fmt.Sprint(gv.hasData) + "|" + ref.Canon(gotData) + "|" + strings.Join(es, ";")
+	sigKey := d.name + "\x00" + strings.Join(deniedList, ",") + "\x00" + mode
+	if oc.sigs == nil {
+		oc.sigs = map[string]string{}
+	}
+	if !env.tracing {
+		oc.sigs[sigKey] = sig
+	} else {
+		res.Count("executions_with_tracing", 1)
+		if plain, ok := oc.sigs[sigKey]; ok {
+			res.Count("tracing_responses_compared_with_untraced", 1)
+			if plain != sig {
+				env.violate(res, "tracing-changes-response", "with request tracing enabled the response under the same authorization decision carries other data or errors ("+mode+" mode)", match, full(map[string]any{"untraced": truncate(plain, 3000), "traced": truncate(sig, 3000), "first_difference": firstDiff(plain, sig)}))
+			}
+		}
+	}
 
 	nontrivial := nDenied > 0 || suppressed > 0
 	if nontrivial && res.Sample == nil && nDenied > 0 && suppressed > 0 {
